@@ -35,7 +35,8 @@ for c in cases:
                 s = s.replace(e['old'], e['new'], 1)
             open(p, 'w').write(s)
         env = dict(os.environ, GOCV_REPO=scratch)
-        r = subprocess.run([os.path.join(root, 'bin', 'gocv'), 'check', c['property'], 'quick'], cwd=root, env=env, capture_output=True, text=True)
+        env['GOCV_EVIDENCE_DIR'] = os.path.join(root, '.work', 'evidence-selftest')
+        r = subprocess.run([os.path.join(root, 'check'), c['property'], 'quick'], cwd=root, env=env, capture_output=True, text=True)
         failed = [l.split()[1] for l in r.stdout.splitlines() if l.startswith('FAILED ')]
         if c.get('expect_pass'):
             # a harmless edit (behaviour-preserving refactoring): the check must stay quiet
